@@ -536,7 +536,8 @@ def impl_line(c):
             return "PROJI %d %d %d %s %s %s %s" % (c["D"], c["d"], c["N"], ids, nums(flat(c["P"])), nums(c["m"]),
                                                    nums(flat(c["X"])))
         if c["kind"] == "EMB":
-            return "EMBI %s %s %d %d %d %d %d %s %s %s" % (c["method"], c["solver"], c["N"], c["D"], c["d"], c["k"],
+            return "%s %s %s %d %d %d %d %d %s %s %s" % ("EMBOI" if c.get("par") else "EMBI", c["method"], c["solver"],
+                                                         c["N"], c["D"], c["d"], c["k"],
                                                          len(c["Q"]), ids, nums(flat(c["X"])), nums(flat(c["Q"])))
     if c["kind"] == "MEAN":
         return "MEAN %d %d %s" % (c["D"], c["N"], nums(flat(c["X"])))
@@ -545,8 +546,8 @@ def impl_line(c):
                                            nums(flat(c["X"])))
     if c["kind"] == "MPI":
         return "MPI %d %d %s %s %s" % (c["D"], c["d"], nums(flat(c["P"])), nums(c["m"]), nums(c["x"]))
-    return "EMB %s %s %d %d %d %d %d %s %s" % (c["method"], c["solver"], c["N"], c["D"], c["d"], c["k"],
-                                               len(c["Q"]), nums(flat(c["X"])), nums(flat(c["Q"])))
+    return "%s %s %s %d %d %d %d %d %s %s" % ("EMBO" if c.get("par") else "EMB", c["method"], c["solver"], c["N"], c["D"],
+                                              c["d"], c["k"], len(c["Q"]), nums(flat(c["X"])), nums(flat(c["Q"])))
 
 
 def model_line(c):
@@ -1196,11 +1197,19 @@ def build_cases(ctx, quick):
     api = [c for c in generated if c["kind"] == "EMB" and c["method"] in FIVE and c["N"] <= 64]
     for j, c in enumerate(api[::6]):
         generated.append(dict(c, omp=labels[j % 3]))
+    # ... and every sixth one (another residue class) with the call made from INSIDE a parallel region of the
+    # application (harness command EMBO: three threads call embed() and apply the projection at once, each on its own
+    # output; the answer of the last thread is judged), alternately with the default environment and with
+    # OMP_THREAD_LIMIT below OMP_NUM_THREADS
+    for j, c in enumerate(api[3::6]):
+        generated.append(dict(c, par=True, **({"omp": "limit-below-num-threads"} if j % 2 else {})))
     for c in generated:
         key = hist_key(c)
         bump(hist, key)
         if c.get("omp"):
             bump(hist, "openmp-environment:" + c["omp"])
+        if c.get("par"):
+            bump(hist, "called-inside-a-parallel-region")
         if c.get("ids") is not None:
             bump(hist, "non-identity-range:" + c.get("range", "?"))
         if c.get("scale_log2"):
@@ -1217,6 +1226,10 @@ def build_cases(ctx, quick):
     for meth in OTHERS:
         cases.append(gen_other(rng, meth))
         hist["api-nonprojecting"] = hist.get("api-nonprojecting", 0) + 1
+    for meth in ("kpca", "mds"):
+        cases.append(dict(gen_other(rng, meth), par=True))
+        hist["api-nonprojecting"] = hist.get("api-nonprojecting", 0) + 1
+        hist["called-inside-a-parallel-region"] = hist.get("called-inside-a-parallel-region", 0) + 1
     return cases, hist
 
 
@@ -1297,7 +1310,10 @@ def run(ctx):
              "verdict by the output-relative decision procedure) and all five methods through the public API (dyadic "
              "grid and arbitrary doubles, PCA / RandomProjection also at N = 256, 257); every public-API comparison "
              "(embedding rows, projection(x_i) vs row i, unseen vectors, affine combinations) is judged relative to the "
-             "OUTPUT: eps * sum_t |P_tc| |x_t - m_t| with eps = 4 (D + 2) 2^-53.  "
+             "OUTPUT: eps * sum_t |P_tc| |x_t - m_t| with eps = 4 (D + 2) 2^-53.  Every fourth scaled copy of the exact stream "
+             "and of RandomProjection at 2^+-600 / 2^+-900; every sixth public-API case of a projecting method (N <= 64) once "
+             "more under another OpenMP environment (1 thread; OMP_THREAD_LIMIT 2 < OMP_NUM_THREADS 4; nested parallelism "
+             "on) and every sixth one with the call made from inside a parallel region of the harness (3 threads at once).  "
              "non-trivial = "
              "projecting API case with N >= 3, MEAN/PROJ with N >= 2, MPI with D >= 2; distinct by hash of the case.",
         samples=samples,
